@@ -208,7 +208,14 @@ func ReuseWAL(cfg *config.Config, dir string, nextSeq uint64) (*WAL, error) {
 	// entry) at the end of the file. Replay stops there, so anything appended
 	// behind it would never be read again: cut the torn tail off first.
 	size := stat.Size()
-	if valid, torn := completeEntriesLength(latestWAL); torn && valid < size {
+	valid, torn, damaged := completeEntriesLength(latestWAL)
+	if damaged {
+		// Replay gives up (or skips blindly) at a damaged record, so records
+		// appended behind it could be lost: do not reuse this file
+		file.Close()
+		return nil, nil
+	}
+	if torn && valid < size {
 		if err := file.Truncate(valid); err != nil {
 			file.Close()
 			return nil, fmt.Errorf("failed to truncate torn WAL tail: %w", err)
@@ -240,11 +247,11 @@ func ReuseWAL(cfg *config.Config, dir string, nextSeq uint64) (*WAL, error) {
 // the length of the prefix that ends with a complete entry (a full record or
 // the last fragment of a fragmented one). torn is true only if the walk ended
 // at the end of the file inside a record or inside a fragmented entry; a file
-// with an unknown record type is left alone for the corruption handling.
-func completeEntriesLength(path string) (valid int64, torn bool) {
+// with an unknown record type or a checksum mismatch is reported as damaged.
+func completeEntriesLength(path string) (valid int64, torn bool, damaged bool) {
 	f, err := os.Open(path)
 	if err != nil {
-		return 0, false
+		return 0, false, false
 	}
 	defer f.Close()
 
@@ -254,17 +261,20 @@ func completeEntriesLength(path string) (valid int64, torn bool) {
 	for {
 		if _, err := io.ReadFull(r, header); err != nil {
 			// io.EOF: clean end (torn only if fragments are pending)
-			return valid, err == io.ErrUnexpectedEOF || (err == io.EOF && offset != valid)
+			return valid, err == io.ErrUnexpectedEOF || (err == io.EOF && offset != valid), false
 		}
 		recordType := header[6]
 		if recordType < RecordTypeFull || recordType > RecordTypeLast {
-			return valid, false
+			return valid, false, true
 		}
-		length := int64(binary.LittleEndian.Uint16(header[4:6]))
-		if n, err := io.CopyN(io.Discard, r, length); err != nil || n != length {
-			return valid, true
+		data := make([]byte, binary.LittleEndian.Uint16(header[4:6]))
+		if _, err := io.ReadFull(r, data); err != nil {
+			return valid, true, false
 		}
-		offset += int64(HeaderSize) + length
+		if crc32.ChecksumIEEE(data) != binary.LittleEndian.Uint32(header[0:4]) {
+			return valid, false, true
+		}
+		offset += int64(HeaderSize) + int64(len(data))
 		if recordType == RecordTypeFull || recordType == RecordTypeLast {
 			valid = offset
 		}
